@@ -121,7 +121,14 @@ class MergeExact(Monitor):
         names = [show_params(p) for p in ins]
         rp = replay_alg('merge', [full_params(s) for s in args])
         # ---- exactness
-        if aligned and n >= 2:
+        # exactness is quantified over name-aligned *pairs*: an n-ary merge is a left
+        # fold whose intermediate results cannot always express what a later input
+        # still accepts (merge((b, c=0, a=0, **kw), (b, c=0, *args), (**kw)) raises:
+        # the first step had to make b positional-only); for n >= 3 the fold law and
+        # C01 apply instead
+        if aligned and n >= 3:
+            ctx.count('C09.aligned_nary_not_in_quantifier')
+        if aligned and n == 2:
             ctx.evaluated()
             ctx.count('C09.aligned')
             sp = oracle.space_for(ins + ([bparams(value)] if ok else []))
